@@ -703,6 +703,50 @@ func runC12(env *lib.Env, rep *lib.Report) {
 		}
 		rep.Bounds["flush journeys"] = fmt.Sprintf("%d: three rounds of appended pages with stamps above / at / below those of earlier flushes (0 included), a page of the first round changed again; after each flush every page is read back through a second store", journeys)
 	}
+	// a page that has been written once and is then changed the way DELETE changes it (the cell's tombstone is set
+	// directly, the page stamped again): the second image must show the change - on the original node and on a node
+	// read back from its page
+	for n := 1; n <= 4; n++ {
+		for pos := 0; pos < n; pos++ {
+			for _, size := range []int{0, 7, 400} {
+				keys, sz, del := mk(n, 60)
+				for i := range sz {
+					sz[i] = size
+				}
+				l := &c12Leaf{keys: keys, sizes: sz, deleted: del, lsn: 4, off: 12288, hasR: true, rOff: 4096 * 11}
+				orig := l.build()
+				desc := fmt.Sprintf("leaf n=%d cells of %d bytes, written, then cell %d tombstoned", n, size, pos)
+				r.check(desc+" (first image)", orig, true, true)
+				buf, err := orig.encode()
+				if err != nil {
+					continue
+				}
+				back := &btreeNode{isLeaf: true}
+				if err := back.decode(bytes.NewBuffer(append([]byte{}, buf.Bytes()...))); err != nil {
+					continue
+				}
+				back.fileOffset = 12288
+				for _, node := range []*btreeNode{orig, back} {
+					off, found := node.findCellOffsetByKey(keys[pos])
+					if !found {
+						panic(lib.HarnessError{Msg: "findCellOffsetByKey lost a key"})
+					}
+					node.leafCells[off].deleted = true
+					node.markDirty(5)
+				}
+				r.check(desc+" (second image, original node)", orig, true, true)
+				r.check(desc+" (second image, node read back from its page)", back, true, true)
+				// ... and un-deleted again by a row update of another cell next to it
+				if n > 1 {
+					other := keys[(pos+1)%n]
+					if err := orig.updateCell(other, c12Value(size/2, 5)); err == nil {
+						orig.markDirty(6)
+						r.check(desc+", then the neighbouring cell rewritten", orig, true, true)
+					}
+				}
+			}
+		}
+	}
 	// a refused update (value over the limit) must leave the page exactly as it was
 	for n := 1; n <= 4; n++ {
 		for _, from := range []int{0, 2, 100, 400} {
